@@ -37,6 +37,7 @@ h_pn_unsigned(void)
 	errno = 0;
 	rv = parsenum_unsigned(str, min, max, typemax, base, trailing);
 	PN_NATIVE_GHOSTS(str, base);
+	__CPROVER_assert(g_num_sptr == str, "C16 parsenum: the conversion was applied to the given string");
 
 	/* the property, restated at harness level (also evaluated by the native replay) */
 	__CPROVER_assert(!(errno == 0) || (g_num_nd && !g_num_ovf && NUM_W(min) <= NUM_V && NUM_V <= NUM_W(max) &&
